@@ -149,33 +149,7 @@ let parse_op params toks =
   | t :: _ -> failwith ("unknown op " ^ t)
   | [] -> failwith "empty"
 
-let () =
-  let file = Sys.argv.(1) in
-  let ic = open_in file in
-  let params = ref [] in
-  let k = ref { pocca = false; pocma = false; pocs = false; always_eq = true; soccc_bump = false } in
-  let statics = ref [] in
-  let scripts = ref [] in          (* (id, ops) reversed *)
-  let cur = ref None in
-  let ints l = List.map int_of_string l in
-  let take n l = let rec go n l acc = if n = 0 then (List.rev acc, l) else match l with x :: r -> go (n-1) r (x :: acc) | [] -> failwith "short" in go n l [] in
-  (try while true do
-    let line = input_line ic in
-    match tokens line with
-    | [] -> ()
-    | t :: _ when String.length t > 0 && t.[0] = '#' -> ()
-    | "K" :: r -> (match ints r with [a;b;c;d;e] -> k := { pocca = a<>0; pocma = b<>0; pocs = c<>0; always_eq = d<>0; soccc_bump = e<>0 } | _ -> failwith "K")
-    | "P" :: r -> (match ints r with [kd;sz;al;ty] -> params := { pk = kind_of_int kd; psz = z_of_int sz; pal = z_of_int al; pty = ty_of_int ty } :: !params | _ -> failwith "P")
-    | "static" :: r -> (match ints r with nf :: r -> let (f, _) = take nf r in statics := `Static f :: !statics | _ -> failwith "static")
-    | "needed" :: r -> (match ints r with n :: b :: nf :: r -> let (f, _) = take nf r in statics := `Needed (n, b, f) :: !statics | _ -> failwith "needed")
-    | "BEGIN" :: [id] -> cur := Some (id, [])
-    | "END" :: _ -> (match !cur with Some (id, ops) -> scripts := (id, List.rev ops) :: !scripts; cur := None | None -> ())
-    | toks -> (match !cur with
-               | Some (id, ops) -> cur := Some (id, parse_op (List.rev !params) toks :: ops)
-               | None -> failwith "op outside script")
-  done with End_of_file -> ());
-  close_in ic;
-  let l = List.rev !params in
+let print_static l statics =
   Printf.printf "SA %d\n" (int_of_z (sA l));
   Printf.printf "LARGEST %s\n" (zs (largest l));
   Printf.printf "TRAILS %s\n" (zs (trails l));
@@ -192,7 +166,43 @@ let () =
     | `Needed (n, b, f) ->
         let e = esize l (List.map z_of_int f) in
         let nd = needed (z_of_int n) (z_of_int b) e in
-        Printf.printf "NEEDED %d %d : %d %d\n" n b (int_of_z nd) (int_of_z (units l nd))) (List.rev !statics);
+        Printf.printf "NEEDED %d %d : %d %d\n" n b (int_of_z nd) (int_of_z (units l nd))) statics
+
+let () =
+  let file = Sys.argv.(1) in
+  let ic = open_in file in
+  let params = ref [] in
+  let k = ref { pocca = false; pocma = false; pocs = false; always_eq = true; soccc_bump = false } in
+  let statics = ref [] in
+  let scripts = ref [] in          (* (id, ops) reversed *)
+  let cur = ref None in
+  let multi = ref false in
+  let ints l = List.map int_of_string l in
+  let take n l = let rec go n l acc = if n = 0 then (List.rev acc, l) else match l with x :: r -> go (n-1) r (x :: acc) | [] -> failwith "short" in go n l [] in
+  (try while true do
+    let line = input_line ic in
+    match tokens line with
+    | [] -> ()
+    | t :: _ when String.length t > 0 && t.[0] = '#' -> ()
+    | "LIST" :: [id] -> multi := true; params := []; statics := []; cur := Some (id, [])
+    | "ENDLIST" :: _ ->
+        (match !cur with
+         | Some (id, _) -> Printf.printf "BEGIN %s\n" id; print_static (List.rev !params) (List.rev !statics); Printf.printf "END\n"
+         | None -> ());
+        cur := None; params := []; statics := []
+    | "K" :: r -> (match ints r with [a;b;c;d;e] -> k := { pocca = a<>0; pocma = b<>0; pocs = c<>0; always_eq = d<>0; soccc_bump = e<>0 } | _ -> failwith "K")
+    | "P" :: r -> (match ints r with [kd;sz;al;ty] -> params := { pk = kind_of_int kd; psz = z_of_int sz; pal = z_of_int al; pty = ty_of_int ty } :: !params | _ -> failwith "P")
+    | "static" :: r -> (match ints r with nf :: r -> let (f, _) = take nf r in statics := `Static f :: !statics | _ -> failwith "static")
+    | "needed" :: r -> (match ints r with n :: b :: nf :: r -> let (f, _) = take nf r in statics := `Needed (n, b, f) :: !statics | _ -> failwith "needed")
+    | "BEGIN" :: [id] -> cur := Some (id, [])
+    | "END" :: _ -> (match !cur with Some (id, ops) -> scripts := (id, List.rev ops) :: !scripts; cur := None | None -> ())
+    | toks -> (match !cur with
+               | Some (id, ops) -> cur := Some (id, parse_op (List.rev !params) toks :: ops)
+               | None -> failwith "op outside script")
+  done with End_of_file -> ());
+  close_in ic;
+  let l = List.rev !params in
+  if not !multi then print_static l (List.rev !statics);
   List.iter (fun (id, ops) ->
     Printf.printf "BEGIN %s\n" id;
     (try List.iter print_obs (run !k l ops)
